@@ -1,10 +1,10 @@
 (* Extraction of the C12 models for the correspondence check. ExtrOcamlBasic only. *)
 From V.lib Require Import Base.
-From V.c12 Require Import C12Model C12Spec C12Sidx C12Bytes.
+From V.c12 Require Import C12Model C12Spec C12Sidx C12Bytes C12C01Model.
 Require Import ExtrOcamlBasic.
 Separate Extraction
   kind sref tfra traf topbox sidx fragment segment file opts
   assemble add_children empty_file encode_file encode_segment_mode
   frag_media sidx_starts
   update_sidx update_sidx_pinned seg_size enc_ref_word dec_ref_word u32
-  binfo file_bytes reencode layout_ok.
+  binfo file_bytes reencode layout_ok c01_reenc.
